@@ -35,9 +35,39 @@ LEVEL_TEXT = ('Props.C10R.sound: for every text and every k the whole property h
 LEVEL_NOTE = ('Trusted: Lean kernel; axioms propext, Classical.choice, Quot.sound only for the registered theorems; the range clauses rest on specification evaluation + correspondence.')
 
 
+def accessors_agree(c):
+    """the three observation points of the property give the same ranges: to_dict(with_lines=True), the per-field
+    accessor, and the first/last accessor (the hull of the ranges, when the paragraph has any)"""
+    full = c.to_dict(with_lines=True)['paragraphs']
+    plain = c.to_dict()['paragraphs']
+    if len(full) != len(c.paragraphs) or len(plain) != len(full):
+        return False
+    for p, d, d0 in zip(c.paragraphs, full, plain):
+        ranges = p.line_numbers_by_field
+        got = d.get('line_numbers_by_field')
+        if got is None or [(k, tuple(v)) for k, v in got.items()] != [(k, tuple(v)) for k, v in ranges.items()]:
+            return False
+        # (an extra field that is itself called Line-Numbers-By-Field shares the key: it is left out of this comparison)
+        if ({k: v for k, v in d.items() if k != 'line_numbers_by_field'} != {k: v for k, v in d0.items() if k != 'line_numbers_by_field'}
+                or list(d0.items()) != list(p.to_dict().items())):
+            return False
+        for k, v in ranges.items():
+            if tuple(p.get_field_line_numbers(k)) != tuple(v):
+                return False
+        if ranges:
+            first_last = tuple(p.get_first_last_line_numbers())
+            if first_last != (min(a for a, _b in ranges.values()), max(b for _a, b in ranges.values())):
+                return False
+    return True
+
+
 def paras(t):
     try:
-        return cobs.paras_obs(cr.DebianCopyright.from_text(t))
+        c = cr.DebianCopyright.from_text(t)
+        obs = cobs.paras_obs(c)
+        if not accessors_agree(c):
+            return Exc('RangeAccessorsDiffer')
+        return obs
     except Exception as e:
         return Exc(type(e).__name__)
 
